@@ -319,6 +319,7 @@ Proof.
   - exact (i_qnd _ I').
   - pose proof (i_height _ I'). lia.
   - exact (i_seq _ I').
+  - exact (i_nodup _ I').
 Qed.
 
 (** ** CreatePool *)
@@ -413,6 +414,7 @@ Proof.
   - apply NoDup_enqueue. exact (i_qnd _ I).
   - exact Hh.
   - pose proof (i_seq _ I). lia.
+  - apply keys_set_NoDup. exact (i_nodup _ I).
 Qed.
 
 (** ** AdjustPool *)
